@@ -72,11 +72,10 @@ Fixpoint fix_init (mf mg : list (N * N)) (e : init) : res init :=
                end
   end.
 
-(* wasmparser::ValType::from(&DataType): FuncRef / ExternRef become the *nullable* funcref / externref
-   (types.rs:466-467), I8 / I16 panic *)
+(* wasmparser::ValType::from(&DataType): every value type is kept (FuncRef / ExternRef are the non-nullable
+   (ref func) / (ref extern) since the repair of D30; they used to become funcref / externref), I8 / I16 panic *)
 Definition ty_conv (t : N) : res N :=
-  if N.eqb t 7 then Ok 5 else if N.eqb t 8 then Ok 6
-  else if N.eqb t 20 || N.eqb t 21 then Panic 60 else Ok t.
+  if N.eqb t 20 || N.eqb t 21 then Panic 60 else Ok t.
 Definition gty_conv (t : gty) : res gty :=
   match ty_conv (gt_ty t) with Ok c => Ok (mkGT c (gt_mut t) (gt_shared t)) | Panic w => Panic w end.
 
